@@ -49,6 +49,29 @@ def table_int(tab, impairment):
     return {'x': [int(round(x)) for x in xs], 'y': [udb(y) for y in tab['penalty_value']]}
 
 
+def points_int(penalties_list, impairment):
+    """the points of one impairment exactly as WRITTEN in the equipment JSON (list of {impairment: x, penalty_value: y},
+    any order) -> [{'x': int, 'y': int}, ...] in the same order; ordering / the 0 boundary are the specification's job"""
+    u = UNIT[impairment]
+    out = []
+    for p in penalties_list or []:
+        if impairment in p:
+            x = p[impairment] * u
+            if abs(x - round(x)) > 1e-6:
+                raise Machinery(f'penalty boundary not representable in table units: {p}')
+            out.append({'x': int(round(x)), 'y': udb(p['penalty_value'])})
+    return out
+
+
+def table_of_points(pts):
+    """mirror of FeasibilityOps.TableOf, used ONLY for the reported projection error (not for a verdict)"""
+    pts = list(pts)
+    if pts and all(p['x'] > 0 for p in pts):
+        pts.append({'x': 0, 'y': 0})
+    pts.sort(key=lambda p: p['x'])
+    return {'x': [p['x'] for p in pts], 'y': [p['y'] for p in pts]}
+
+
 # -------------------------------------------------------------------------------------------------------- recorder
 class RxRecorder(contextlib.AbstractContextManager):
     """records every recomputation of receiver figures: Transceiver.update_snr followed by calc_penalties on an object
@@ -286,12 +309,20 @@ def base_mode(fmt, baud, rate, min_spacing, osnr=0.0, tx_osnr=40.0, offset=0.0, 
     return d
 
 
-def penalties_json(cd=None, pmd=None, pdl=None):
-    """[(x, y), ...] per impairment -> the list-of-dicts form of the equipment file"""
+def penalties_json(cd=None, pmd=None, pdl=None, listing='asc', rng=None):
+    """[(x, y), ...] per impairment -> the list-of-dicts form of the equipment file.  listing: the order in which the
+    points of each impairment are written ('asc', 'desc', 'shuffled'); 'mixed' also interleaves the impairments"""
     out = []
     for name, pts in (('chromatic_dispersion', cd), ('pmd', pmd), ('pdl', pdl)):
-        for x, y in pts or []:
+        pts = list(pts or [])
+        if listing == 'desc':
+            pts.reverse()
+        elif listing in ('shuffled', 'mixed'):
+            rng.shuffle(pts)
+        for x, y in pts:
             out.append({name: x, 'penalty_value': y})
+    if listing == 'mixed':
+        rng.shuffle(out)
     return out
 
 
